@@ -61,7 +61,8 @@ Section Sound.
     match mk with
     | MWith | MOff | MAbove | MBelow | MFork | MBracket | MTry | MDipN _
     | MReduce | MScan | MFold | MRows | MEach | MInventory | MTable | MTuples | MGroup | MPartition
-    | MSpawn | MPool | MRepeat | MRepeatWithInverse | MStencil | MReduceContent | MReduceDepth _ => true
+    | MSpawn | MPool | MRepeat | MRepeatWithInverse | MStencil | MReduceContent | MReduceDepth _
+    | MHandleSig | MBothImpl _ _ | MUnBothImpl _ _ => true
     | _ => false end.
   (** modifiers checked in context whose run-time form uses the stored signature *)
   Definition needs_exact (mk : modk) : bool :=
@@ -69,7 +70,7 @@ Section Sound.
   Definition is_iter (mk : modk) : bool :=
     match mk with
     | MReduce | MScan | MFold | MRows | MEach | MInventory | MTable | MTuples | MGroup | MPartition
-    | MSpawn | MPool | MRepeat | MStencil | MReduceContent | MReduceDepth _ => true
+    | MSpawn | MPool | MRepeat | MStencil | MReduceContent | MReduceDepth _ | MHandleSig => true
     | _ => false end.
 
   (** the tree invariant the compiler is expected to establish (validated on real compiler
@@ -455,7 +456,10 @@ Section Sound.
     - (* ReduceDepth *) inversion Hv; subst; clear Hv. cbn [handle_ao fst snd] in *.
       apply iter_exec_post; auto; try (eapply body_frames_of_framed; eauto).
     - (* ReduceContent *) inversion Hv; subst; clear Hv. cbn [handle_ao fst snd] in *.
-      apply iter_exec_post; auto; try (eapply body_frames_of_framed; eauto).
+      apply iter_exec_post; auto; try (eapply body_frames_of_framed; eauto).    - (* HandleSig: subscripted table, sided tuples, reduce-conjoin-inventory *)
+      inversion Hv; subst; clear Hv.
+      rewrite (handle_sig_noU sg sk un _ _ U1 U2 S2) in *. cbn [fst snd] in *.
+      apply iter_exec_post; auto.
   Qed.
 
   Lemma iter_exec_nn_post body tag na no fa fo sk un init uinit s :
@@ -657,6 +661,183 @@ Section Sound.
       + rewrite A2. destruct SU as (q & Eq). exists (uj ++ q). rewrite Eq, app_assoc. reflexivity.
   Qed.
 
+
+  (** ---- both / un-both with a numeric subscript, on with a subscript ---- *)
+  Definition frames_all (body : rt -> res) (a o : nat) : Prop :=
+    forall B U H, body_frames body a o B U H.
+
+  Lemma both_loop_frame body a o : frames_all body a o ->
+    forall k s, a * k <= length (stk s) ->
+    match both_loop body a k s with
+    | Ok s' => exists outs, stk s' = outs ++ skipn (a * k) (stk s) /\ length outs = o * k /\
+                            und s' = und s /\ hid s' = hid s
+    | Err _ s' => exists j uj, stk s' = j ++ skipn (a * k) (stk s) /\ und s' = uj ++ und s /\ hid s' = hid s
+    | OOF | Unk => True end.
+  Proof.
+    intros Hb. induction k as [|k IHk]; intros s Hl.
+    - cbn [both_loop]. exists []. rewrite Nat.mul_0_r. cbn [skipn app length]. repeat split; auto.
+    - cbn [both_loop]. destruct k as [|k'].
+      + (* one run *)
+        rewrite Nat.mul_1_r in *.
+        specialize (Hb (skipn a (stk s)) (und s) (hid s) s (firstn a (stk s))).
+        rewrite firstn_skipn, firstn_length, Nat.min_l in Hb by lia.
+        specialize (Hb eq_refl eq_refl eq_refl eq_refl).
+        destruct (body s) as [s'|c s'| |]; [ | |exact I|exact I].
+        * destruct Hb as (outs & E1 & E2 & E3 & E4). exists outs. rewrite Nat.mul_1_r. repeat split; auto.
+        * destruct Hb as (j & uj & E1 & E2 & E3). exists j, uj. repeat split; auto.
+      + set (k := S k') in *.
+        assert (Hk : a * S k = a + a * k) by lia.
+        unfold need. assert (En : (a <=? length (stk s)) = true) by (apply Nat.leb_le; lia).
+        rewrite En. cbn [negb].
+        specialize (IHk (set_stk s (skipn a (stk s)))). cbn [set_stk stk und] in IHk.
+        rewrite skipn_length in IHk. specialize (IHk ltac:(lia)).
+        rewrite skipn_skipn in IHk. replace (a * k + a) with (a * S k) in IHk by lia.
+        destruct (both_loop body a k (set_stk s (skipn a (stk s)))) as [s2|c s2| |]; cbn [bind]; [ | |exact I|exact I].
+        * destruct IHk as (outs & E1 & E2 & E3 & E4).
+          pose proof (Hb (outs ++ skipn (a * S k) (stk s)) (und s) (hid s)
+                         (set_stk s2 (firstn a (stk s) ++ stk s2)) (firstn a (stk s))) as Hb2.
+          assert (X1 : stk (set_stk s2 (firstn a (stk s) ++ stk s2)) =
+                       firstn a (stk s) ++ outs ++ skipn (a * S k) (stk s))
+            by (cbn [set_stk stk]; rewrite E1; reflexivity).
+          assert (X2 : length (firstn a (stk s)) = a) by (rewrite firstn_length; lia).
+          specialize (Hb2 X1 X2 E3 E4). clear Hb. rename Hb2 into Hb.
+          destruct (body (set_stk s2 (firstn a (stk s) ++ stk s2))) as [s3|c s3| |]; [ | |exact I|exact I].
+          -- destruct Hb as (outs2 & G1 & G2 & G3 & G4). exists (outs2 ++ outs).
+             rewrite G1, <- app_assoc, app_length. repeat split; auto. lia.
+          -- destruct Hb as (j & uj & G1 & G2 & G3). exists (j ++ outs), uj.
+             rewrite G1, <- app_assoc. repeat split; auto.
+        * destruct IHk as (j & uj & E1 & E2 & E3). exists j, uj. repeat split; auto.
+  Qed.
+
+  Lemma unboth_loop_frame body a o : frames_all body a o ->
+    forall k s, a * k <= length (stk s) ->
+    match unboth_loop body o k s with
+    | Ok s' => exists outs, stk s' = outs ++ skipn (a * k) (stk s) /\ length outs = o * k /\
+                            und s' = und s /\ hid s' = hid s
+    | Err _ s' => exists j uj, stk s' = j ++ skipn (a * k) (stk s) /\ und s' = uj ++ und s /\ hid s' = hid s
+    | OOF | Unk => True end.
+  Proof.
+    intros Hb. induction k as [|k IHk]; intros s Hl.
+    - cbn [unboth_loop]. exists []. rewrite Nat.mul_0_r. cbn [skipn app length]. repeat split; auto.
+    - cbn [unboth_loop].
+      assert (H1 : match body s with
+                   | Ok s' => exists outs, stk s' = outs ++ skipn a (stk s) /\ length outs = o /\ und s' = und s /\ hid s' = hid s
+                   | Err _ s' => exists j uj, stk s' = j ++ skipn a (stk s) /\ und s' = uj ++ und s /\ hid s' = hid s
+                   | _ => True end).
+      { specialize (Hb (skipn a (stk s)) (und s) (hid s) s (firstn a (stk s))).
+        rewrite firstn_skipn, firstn_length, Nat.min_l in Hb by lia.
+        exact (Hb eq_refl eq_refl eq_refl eq_refl). }
+      destruct k as [|k'].
+      + rewrite Nat.mul_1_r in *. destruct (body s) as [s'|c s'| |]; [ | |exact I|exact I].
+        * destruct H1 as (outs & E1 & E2 & E3 & E4). exists outs. rewrite Nat.mul_1_r. repeat split; auto.
+        * exact H1.
+      + set (k := S k') in *.
+        destruct (body s) as [s1|c s1| |]; cbn [bind]; [ | |exact I|exact I].
+        * destruct H1 as (outs & E1 & E2 & E3 & E4).
+          unfold need. assert (En : (o <=? length (stk s1)) = true).
+          { apply Nat.leb_le. rewrite E1, app_length. lia. }
+          rewrite En. cbn [negb].
+          specialize (IHk (set_stk s1 (skipn o (stk s1)))). cbn [set_stk stk und] in IHk.
+          assert (Esk : skipn o (stk s1) = skipn a (stk s)).
+          { rewrite E1, skipn_app, <- E2, skipn_all, Nat.sub_diag. reflexivity. }
+          assert (Efn : firstn o (stk s1) = outs).
+          { rewrite E1, firstn_app, <- E2, firstn_all, Nat.sub_diag. cbn [firstn]. apply app_nil_r. }
+          rewrite Esk, Efn in *. rewrite skipn_length in IHk. specialize (IHk ltac:(lia)).
+          rewrite skipn_skipn in IHk. replace (a * k + a) with (a * S k) in IHk by lia.
+          destruct (unboth_loop body o k (set_stk s1 (skipn a (stk s)))) as [s2|c s2| |]; cbn [bind]; [ | |exact I|exact I].
+          -- destruct IHk as (outs2 & G1 & G2 & G3 & G4). exists (outs ++ outs2).
+             cbn [set_stk stk und]. rewrite G1, <- app_assoc, app_length.
+             split; [reflexivity|]. split; [lia|]. split; [exact (eq_trans G3 E3)|exact (eq_trans G4 E4)].
+          -- destruct IHk as (j & uj & G1 & G2 & G3). exists j, uj.
+             split; [exact G1|]. split; [rewrite G2; cbn [set_stk und]; rewrite E3; reflexivity|exact (eq_trans G3 E4)].
+        * destruct H1 as (j & uj & E1 & E2 & E3).
+          exists (j ++ firstn (a * k) (skipn a (stk s))), uj. repeat split; auto.
+          rewrite E1, <- app_assoc. f_equal.
+          rewrite <- (firstn_skipn (a * k) (skipn a (stk s))) at 1. f_equal.
+          rewrite skipn_skipn. f_equal. lia.
+  Qed.
+
+  Lemma bothk_post fuel : P fuel -> asm_ok ->
+    forall (un_ : bool) r k sg f d e e' init uinit s,
+    let mk := if un_ then MUnBothImpl r k else MBothImpl r k in
+    tree_ok (Mod mk [(sg, f)]) -> vnode d (Mod mk [(sg, f)]) e = Some e' ->
+    fits e' init uinit -> sim2 e init uinit s ->
+    post e' init uinit s (exec (S fuel) (Mod mk [(sg, f)]) s).
+  Proof.
+    intros HP HA un_ r k sg f d [sk un] e' init uinit s mk Ht Hv [F1 F2] [S1 S2].
+    cbn [fst snd] in S1, S2.
+    assert (Hig : ignores_under mk = true) by (destruct un_; reflexivity).
+    assert (Ht' : (ignores_under mk = true -> Forall (fun a : sig * node => sua (fst a) = 0 /\ suo (fst a) = 0) [(sg, f)]) /\
+                  tree_ok f /\ stored_ok sg f).
+    { destruct un_; cbn [mk tree_ok fst snd] in Ht; destruct Ht as (_ & HnoU & _ & Tf & Of & _); auto. }
+    destruct Ht' as (HnoU & Tf & Of). clear Ht.
+    specialize (HnoU Hig). inversion HnoU as [|? ? [U1 U2] _]; subst; cbn [fst] in *.
+    pose proof (framed_of_P _ _ _ HP HA Tf Of) as Fr.
+    assert (Hb : frames_all (exec fuel f) (sa sg) (so sg)).
+    { intros B U H. eapply body_frames_of_framed; eauto. }
+    assert (Ee : e' = (vao (sa sg * k) (so sg * k) sk, un) \/ r <> 0).
+    { destruct (Nat.eq_dec r 0) as [->|]; [left|right; auto].
+      destruct un_; cbn [mk vnode] in Hv; destruct (MAX_NODE_DEPTH <? d); try discriminate;
+        cbn [map fst snd opt_bind] in Hv; inversion Hv; subst; clear Hv;
+        unfold handle_sig; cbn [fst snd sa so sua suo];
+        rewrite U1, U2, !Nat.mul_0_r, (vao00 _ _ _ S2), Nat.sub_0_r, Nat.add_0_r, (Nat.mul_comm k (so sg)); reflexivity. }
+    destruct Ee as [->|Hr].
+    2:{ destruct un_; cbn [mk Exec.exec]; destruct (Nat.eqb_spec r 0); try contradiction; exact I. }
+    cbn [fst snd] in *.
+    assert (A1 : sa sg * k <= length (stk s)) by (eapply sim_enough; eauto).
+    destruct un_; cbn [mk Exec.exec]; destruct (Nat.eqb r 0); cbn [negb]; try exact I.
+    - pose proof (unboth_loop_frame _ _ _ Hb k s A1) as Hl.
+      destruct (unboth_loop (exec fuel f) (so sg) k s) as [s'|c s'| |]; [ | |exact I|exact I].
+      + destruct Hl as (outs & E1 & E2 & E3 & E4). apply post_ok; auto. split; cbn [fst snd].
+        * eapply frame_sim; eauto.
+        * rewrite E3. auto.
+      + destruct Hl as (j & uj & E1 & E2 & E3). apply post_err; auto. split; cbn [fst snd].
+        * eapply frame_simE; eauto.
+        * rewrite E2. apply simE_junk; auto.
+    - unfold need. assert (En : (sa sg * (k - 1) <=? length (stk s)) = true).
+      { apply Nat.leb_le. assert (sa sg * (k - 1) <= sa sg * k) by (apply Nat.mul_le_mono_l; lia). lia. }
+      rewrite En. cbn [negb].
+      pose proof (both_loop_frame _ _ _ Hb k s A1) as Hl.
+      destruct (both_loop (exec fuel f) (sa sg) k s) as [s'|c s'| |]; [ | |exact I|exact I].
+      + destruct Hl as (outs & E1 & E2 & E3 & E4). apply post_ok; auto. split; cbn [fst snd].
+        * eapply frame_sim; eauto.
+        * rewrite E3. auto.
+      + destruct Hl as (j & uj & E1 & E2 & E3). apply post_err; auto. split; cbn [fst snd].
+        * eapply frame_simE; eauto.
+        * rewrite E2. apply simE_junk; auto.
+  Qed.
+
+  Lemma onsub_post fuel : P fuel -> asm_ok ->
+    forall k sg f d e e' init uinit s,
+    tree_ok (Mod (MOnSub k) [(sg, f)]) -> vnode d (Mod (MOnSub k) [(sg, f)]) e = Some e' ->
+    fits e' init uinit -> sim2 e init uinit s ->
+    post e' init uinit s (exec (S fuel) (Mod (MOnSub k) [(sg, f)]) s).
+  Proof.
+    intros HP HA k sg f d [sk un] e' init uinit s Ht Hv [F1 F2] [S1 S2].
+    cbn [tree_ok fst snd] in Ht. destruct Ht as (_ & _ & _ & Tf & Of & _).
+    cbn [vnode] in Hv. destruct (MAX_NODE_DEPTH <? d); [discriminate|].
+    cbn [map fst snd opt_bind] in Hv.
+    set (a := Nat.max (sa sg) k) in *.
+    destruct (vnode (S d) f (handle_ao a a (sk, un))) as [e1|] eqn:E1; cbn [opt_bind] in Hv; [|discriminate].
+    inversion Hv; subst; clear Hv.
+    pose proof (vnode_mono _ _ _ _ E1) as [L1 L2].
+    destruct e1 as [sk1 un1]. cbn [handle_ao fst snd] in *. vsimp.
+    cbn [Exec.exec]. unfold need.
+    destruct (k <=? length (stk s)) eqn:En; cbn [negb].
+    2:{ apply post_err; auto. split; cbn [handle_ao fst snd].
+        - eapply (simE_keep sk); [exact S1 | vsimp; lia].
+        - eapply (simE_keep un); [exact S2 | vsimp; lia]. }
+    apply Nat.leb_le in En.
+    eapply (post_bind (sk1, un1)).
+    - eapply (HP f (S d) (vao a a sk, un) (sk1, un1)); eauto.
+      + split; cbn [handle_ao fst snd]; vsimp; lia.
+      + split; cbn [handle_ao fst snd]; auto. rewrite vao_unfold. apply sim_widen; auto. vsimp. lia.
+    - split; cbn [handle_ao fst snd]; vsimp; lia.
+    - intros s1 _ [A B] Hh. apply post_ok; auto. split; cbn [handle_ao fst snd set_stk stk und]; auto.
+      change (firstn k (stk s) ++ stk s1) with (firstn k (stk s) ++ skipn 0 (stk s1)).
+      apply sim_ao; auto. rewrite firstn_length. lia.
+  Qed.
+
   Ltac senv := cbn [handle_ao handle_sig epop epush fst snd set_stk set_und set_su stk und fills fbs depth] in *.
 
   Theorem P_all : asm_ok -> forall fuel, P fuel.
@@ -665,6 +846,12 @@ Section Sound.
     - exact I.
     - destruct (match n with Switch _ _ _ => true | _ => false end) eqn:Esw.
       { destruct n; try discriminate Esw. eapply switch_post; eauto. }
+      destruct (match n with Mod (MBothImpl _ _ | MUnBothImpl _ _ | MOnSub _) [_] => true | _ => false end) eqn:Ebk.
+      { destruct n; try discriminate Ebk. destruct m; try discriminate Ebk;
+          destruct args as [|[sg f] [|? ?]]; try discriminate Ebk.
+        - eapply onsub_post; eauto.
+        - eapply (bothk_post fuel IH HA false); eauto.
+        - eapply (bothk_post fuel IH HA true); eauto. }
       destruct (match n with Mod MRepeatWithInverse [_; _] => true | _ => false end) eqn:Eri.
       { destruct n; try discriminate Eri. destruct m; try discriminate Eri.
         destruct args as [|[sg f] [|[si g] [|? ?]]]; try discriminate Eri.
@@ -697,7 +884,7 @@ Section Sound.
         destruct e as [sk un]. destruct S as [S1 S2]. destruct F as [F1 F2].
         destruct m; destruct args as [|[sg f] [|[sg2 g] [|? ?]]]; try exact I;
           cbn [vnode map fst snd opt_bind] in Hv; try discriminate;
-          try discriminate Ei;
+          try discriminate Ei; try discriminate Ebk;
           cbn [tree_ok fst snd] in Ht; destruct Ht as (Hup & HnoU & Hex & Ht); cbn [ignores_under] in HnoU.
         * (* Dip *)
           destruct Ht as (Tf & Of & _).
